@@ -254,6 +254,7 @@ func (d *Driver) Read(s int, from string, limit int) {
 		return
 	}
 	pe, ok, why := d.projEvents(evs, s)
+	scribble(evs)
 	d.remember(s, string(next), false)
 	m := map[string]any{"e": "read", "s": sname(s), "from": from, "limit": limit, "evs": pe, "next": string(next), "ok": ok, "mok": d.metricsOK(s, "read", len(evs), false)}
 	if !ok {
@@ -307,6 +308,17 @@ func (d *Driver) Load(s int, sub string) {
 	}
 	d.remember(s, string(tok), false)
 	d.emit(map[string]any{"e": "load", "s": sname(s), "sub": sub, "tok": string(tok), "mok": d.metricsOK(s, "load", 0, false)})
+}
+
+// scribble does what a caller may do with a page it was handed: append to it and clear it.  A store whose Read
+// returns a window of its own backing array gets its log damaged by that.
+func scribble(evs []*eb.StoredEvent) {
+	if cap(evs) > len(evs) {
+		_ = append(evs, &eb.StoredEvent{Offset: "zzz", Type: "intruder", Data: []byte(`{"id":-5}`)})
+	}
+	for i := range evs {
+		evs[i] = nil
+	}
 }
 
 // ConcurrentAppends lets several goroutines append to store s at the same time.  The appends are
